@@ -5,7 +5,7 @@ Driver operations of C08: a whole operation history is one request.
   `spec <init> <k> <op>…` → the same for the abstract spec (no cache bits)
 
 `<init>` = `se3 n <12n rationals>` | `pq n <7n rationals: x y z  w qx qy qz>`, then `T <ratlist>` | `N`.
-`<op>` = `tf L|R|P <12> <norm|->` | `sc s` | `red <natlist>` | `ds n <natlist>` | `mf <natlist>`
+`<op>` = `tf L|R|P <12> <norm|->` | `sc s` | `red <natlist>` | `redi <k> <signed ints>` | `ds n <natlist>` | `mf <natlist>`
        | `crop <natlist>` | `al r|s|o <9> <3> c <norm|->` | `ao <12> <norm|->` | `pj nd k <9k>` | `cp`
        | `rd pos|quat|se3|stamps|num|dist` | `chk`
 -/
@@ -21,6 +21,8 @@ def natP : Prs Nat := do let t ← tok; (t.toNat? : Option Nat)
 def repP {α} (p : Prs α) : Nat → Prs (List α)
   | 0 => pure []
   | n + 1 => do let a ← p; let r ← repP p n; pure (a :: r)
+def intP : Prs Int := do let t ← tok; (t.toInt? : Option Int)
+def intListP : Prs (List Int) := do let n ← natP; repP intP n
 def natListP : Prs (List Nat) := do let n ← natP; repP natP n
 def ratListP : Prs (List Rat) := do let n ← natP; repP ratP n
 def v3P : Prs (V3 Rat) := do let a ← ratP; let b ← ratP; let c ← ratP; pure ⟨a, b, c⟩
@@ -62,6 +64,7 @@ def opP : Prs Op := do
       pure (.transform mode T nm)
   | "sc" => do let s ← ratP; pure (.scale s)
   | "red" => do let l ← natListP; pure (.reduce l)
+  | "redi" => do let l ← intListP; pure (.reduceInt l)
   | "ds" => do let n ← natP; let l ← natListP; pure (.downsample n l)
   | "mf" => do let l ← natListP; pure (.motionFilter l)
   | "crop" => do let l ← natListP; pure (.crop l)
